@@ -180,6 +180,11 @@ func (nmds *NumpyMultiDataset) Append(cs *ColumnSeries, tbk TimeBucketKey) (err 
 			err = errors.New("data shape mismatch of ColumnSeries and NumpyMultiDataset")
 			return
 		}
+		// the column bytes are concatenated: the element types have to agree as well
+		if typeStr, ok := typeMap[GetElementType(cs.GetColumn(name))]; !ok || typeStr != nmds.ColumnTypes[idx] {
+			err = errors.New("data type mismatch of ColumnSeries and NumpyMultiDataset")
+			return
+		}
 	}
 	nmds.StartIndex[tbk.String()] = nmds.Length
 	nmds.Lengths[tbk.String()] = cs.Len()
